@@ -47,6 +47,16 @@ type c03Case struct {
 	Clients  int       `json:"clients"`
 	Listener string    `json:"listener"` // plain | tls | ratelimit
 	ReadTO   int       `json:"read_timeout_s"` // HTTPProxyConfig.ReadTimeout (0 = shipped default: none)
+	TLS12    bool      `json:"tls12"`          // the scripted TLS peers (client of a TLS listener, HTTPS upstream) speak at most TLS 1.2
+}
+
+// c03MaxTLS: with TLS 1.2 a close_notify alert can sit in the same delivery as the last data record, so that one
+// Read returns the final bytes together with io.EOF.
+func c03MaxTLS(c *c03Case) uint16 {
+	if c.TLS12 {
+		return tls.VersionTLS12
+	}
+	return 0
 }
 
 func genC03Script(t *tape.Tape, tier string) c03Script {
@@ -104,6 +114,7 @@ func genC03(t *tape.Tape, tier string) any {
 		c.Fault = []string{"client-rst", "target-rst"}[t.Intn(2)]
 		c.FaultAt = t.Intn(8)
 	}
+	c.TLS12 = t.Chance(1, 3)
 	if c.Fault == "" && t.Chance(1, 5) {
 		// a quiet period in the middle of a healthy tunnel: one endpoint stays silent for a while, the other one
 		// keeps its own direction open until it has seen the pauser's FIN (so the documented 1-minute grace period
@@ -368,7 +379,7 @@ func runC03(env *core.Env, ci any) {
 		serve(env, "upstream", ipUpstream+":8080", func(raw *simnet.Conn) {
 			var conn net.Conn = raw
 			if c.Route == "https" {
-				tc := tls.Server(raw, &tls.Config{Certificates: []tls.Certificate{leaf}})
+				tc := tls.Server(raw, &tls.Config{Certificates: []tls.Certificate{leaf}, MaxVersion: c03MaxTLS(c)})
 				if err := tc.Handshake(); err != nil {
 					raw.Close()
 					return
@@ -470,7 +481,7 @@ func runC03(env *core.Env, ci any) {
 			}
 			raw := conn.(*simnet.Conn)
 			if c.Listener == "tls" {
-				tc := tls.Client(conn, &tls.Config{RootCAs: ca.Pool(), ServerName: "proxy.example"})
+				tc := tls.Client(conn, &tls.Config{RootCAs: ca.Pool(), ServerName: "proxy.example", MaxVersion: c03MaxTLS(c)})
 				if err := tc.Handshake(); err != nil {
 					t.failed = "TLS handshake with proxy: " + err.Error()
 					return
